@@ -6,7 +6,6 @@ THEOREMS = [
     "C13_resolved_only_when_done",
     "C13_outputs_sound",
     "C13_no_contradiction",
-    "C13_progress_refuted",
     "C13_dust_failback_lost_refuted",
     "C13_no_lost_progress_refuted",
 ]
@@ -140,14 +139,8 @@ def predicate(c, base):
                       "outputs %s never happen in the uninterrupted run" % sorted(co - bo)))
     # same terminal outcome
     if not c["end"]["full"]:
-        stuck = [x for x in c["end"]["con"] if x[3] == 1]
-        if c["end"]["st"] == 4 and stuck and co == bo - {(6,)}:
-            sig = "C13 stuck:resolved-not-deleted %s" % name
-            msg = ("never reaches StateFullyResolved: contract(s) %s persisted with "
-                   "resolved=true are reloaded but never deleted" % stuck)
-        else:
-            sig = "C13 stuck:other %s" % name
-            msg = "never marked fully resolved; final database %s" % c["end"]
+        sig = "C13 stuck:other %s" % name
+        msg = "never marked fully resolved; final database %s" % c["end"]
         fails.append(("C13_same_outcome_at_terminal", sig, msg))
     else:
         if co != bo:
